@@ -19,7 +19,7 @@ import random
 from concurrent.futures import ThreadPoolExecutor
 
 from .. import vlib
-from ..eccrig import SECP, SMALL, h_G, h_mul, retarget, scripted_rng
+from ..eccrig import SECP, SMALL, h_G, h_mul, retarget, scripted_rng, retarget_applies, probe_schnorr
 
 # bounded JVM heaps: up to 18 JVMs run side by side, the default (1/4 of RAM each) invites the OOM killer
 JVM_ENV = {"JAVA_TOOL_OPTIONS": "-Xmx3g"}
@@ -40,11 +40,15 @@ def _exec(e):
     op = e["op"]
     if op == "sign":
         key, msg, aux = bytes(e["key"]), bytes(e["msg"]), bytes(e["aux"])
+        e["auxknown"] = True
         if e.get("auxgiven", True):
             got = vlib.run_call(bip340.sign, key, msg, aux)
         else:
-            with scripted_rng([], token=aux):
+            with scripted_rng([], token=aux) as used:
                 got = vlib.run_call(bip340.sign, key, msg)
+            # aux omitted: the library draws it.  If it did not draw from the scripted source (os.urandom, ...), the harness
+            # does not know the aux used: the signature is then only required to be a valid BIP340 signature for the key
+            e["auxknown"] = any(isinstance(u, tuple) and u[0] == "token" for u in used)
         okb = "ok" in got and isinstance(got["ok"], (bytes, bytearray))
         e.update(ok=okb, res=list(got["ok"]) if okb else [], selfok=False)
         if okb:
@@ -119,6 +123,9 @@ def _stage_ab(ctx, models):
         auxs = {i: bytes(a) for i, a in tab[3]["__set__"]}
         n = 0
         b32 = lambda v: v.to_bytes(32, "big")  # noqa
+        if not retarget_applies(c, probe_schnorr, ctx, "bip340.sign / verify / pubkey"):
+            last_rows = last_rows or rows
+            continue
         with retarget(c):
             for row in rows:
                 if row[1] == "sign":
@@ -130,12 +137,18 @@ def _stage_ab(ctx, models):
                                 "auxgiven": given, "expected": want, "got": e["res"], "cls": "small-curve"}
                         if d in (0, 1, c["n"] - 1, c["n"], c["n"] + 1) or not want:
                             ctx.nontrivial(("B", cn, "sign", d, mi, ai, given))
+                        if not e["auxknown"] and 1 <= d < c["n"]:
+                            # the library drew the aux from a source the harness does not script: whether BIP340 fails (k' = 0,
+                            # 1 in n on this group) depends on an aux nobody recorded; only a returned signature can be judged
+                            if e["ok"] and not e["selfok"]:
+                                ctx.violation("own-verifier-rejects-own-signature", case)
+                            continue
                         if not want:
                             if e["ok"]:
                                 ctx.violation("invalid-secret-key-accepted" if not 1 <= d < c["n"] else "sign-accepts-where-bip340-refuses", case)
                         elif not e["ok"]:
                             ctx.violation("sign-raised", dict(case, exc=e.get("exc")))
-                        elif e["res"] != want:
+                        elif e["auxknown"] and e["res"] != want:
                             ctx.violation("signature-differs-from-bip340-default-signing", case)
                         elif not e["selfok"]:
                             ctx.violation("own-verifier-rejects-own-signature", case)
@@ -375,9 +388,11 @@ def _selftests(ctx):
     v0 = vec[0]
     sig_bad = list(v0["sig"])
     sig_bad[63] ^= 1
-    base = dict(op="sign", key=v0["key"], msg=v0["msg"], aux=v0["aux"], ok=True, res=v0["sig"], selfok=True, chk=True)
+    base = dict(op="sign", key=v0["key"], msg=v0["msg"], aux=v0["aux"], ok=True, res=v0["sig"], selfok=True, chk=True, auxknown=True)
     probe(base, "ok")
     probe(dict(base, res=sig_bad), "signature-differs-from-bip340-default-signing")
+    probe(dict(base, aux=[9] * 32, auxknown=False), "ok")                      # aux drawn by the library itself: any valid signature
+    probe(dict(base, aux=[9] * 32, auxknown=False, res=sig_bad), "signature-not-accepted-under-xonly-key")
     probe(dict(base, selfok=False), "own-verifier-rejects-own-signature")
     probe(dict(base, ok=False, res=[]), "sign-raised")
     probe(dict(base, key=[0] * 32), "sign-accepts-where-bip340-refuses")
